@@ -62,6 +62,28 @@ class Family:
     eager_pass: bool = True            # thorough tier: replay a sample again with asyncio.eager_task_factory
 
 
+def _hist_from_counterexample(output: str) -> list[dict] | None:
+    """Parse the last `/\\ hist = << [k |-> v, ...], ... >>` block of a TLC error trace."""
+    import re
+    i = output.rfind("/\\ hist = <<")
+    if i < 0:
+        return None
+    j = output.find(">>", i)
+    block = output[i:j]
+    hist = []
+    for m in re.finditer(r"\[([^\[\]]*)\]", block):
+        rec = {}
+        for part in m.group(1).split(","):
+            if "|->" not in part:
+                continue
+            k, v = part.split("|->", 1)
+            v = v.strip()
+            rec[k.strip()] = v[1:-1] if v.startswith('"') else int(v)
+        if rec:
+            hist.append(rec)
+    return hist
+
+
 def run_family(fam: Family, tier: str, seed: int) -> int:
     rep = core.Report(fam.prop, tier, seed)
     run_part(fam, tier, seed, rep)
@@ -84,6 +106,23 @@ def run_part(fam: Family, tier: str, seed: int, rep: core.Report) -> None:
     cfgdir.mkdir(parents=True, exist_ok=True)
     scenarios: list[dict] = []   # {"scn", "kw", "fin" (model's final projection or None), "src"}
     seen: set[str] = set()
+
+    def model_alarm(cfg: ModelCfg, r: Any, mode: str) -> None:
+        """The model violated one of its invariants.  Per DESIGN 2.5 the counter-example is replayed on
+        the real code before anything is reported: if the real code shows the violation it is reported
+        through the ordinary path below (the scenario joins the replay set); otherwise it is a
+        MODEL-ALARM (the specification or the observer is imprecise), recorded in the evidence."""
+        hist = _hist_from_counterexample(r.output)
+        rep.extra.setdefault("model_alarms", []).append(
+            {"model": f"{fam.mc_module}/{cfg.name}", "mode": mode, "invariant": r.violated,
+             "history": hist})
+        print(f"MODEL-ALARM property={fam.prop} model={fam.mc_module}/{cfg.name} invariant={r.violated} "
+              f"(counter-example replayed on the real code; a VIOLATION follows only if it reproduces)")
+        if hist:
+            nt = fam.nt_of(cfg.constants)
+            scn = (fam.scenario_of or replay.split_hist)(hist, nt)
+            scenarios.append({"scn": scn, "kw": cfg.replay_kw, "fin": None,
+                              "src": f"{cfg.name}:model-counterexample"})
 
     def add_scn(hist: list, cfg: ModelCfg, fin: dict | None, src: str) -> None:
         nt = fam.nt_of(cfg.constants)
@@ -115,10 +154,7 @@ def run_part(fam: Family, tier: str, seed: int, rep: core.Report) -> None:
             tlc.write_cfg(p, **base)
             r = tlc.run_tlc(fam.mc_module, p, timeout=cfg.timeout, tag=f"{fam.prop}-{cfg.name}")
             if r.violated:
-                # The committed model satisfies its invariants by construction; a failure here means
-                # the specification itself was changed.  Not a verdict about the code.
-                raise tlc.TLCError(f"model {fam.mc_module}/{cfg.name} violates {r.violated}\n"
-                                   + r.output[-3000:])
+                model_alarm(cfg, r, "exhaustive")
             rep.add_model(f"{fam.mc_module}/{cfg.name}", r, mode="exhaustive", constants=cfg.constants)
         if cfg.emit:
             p = cfgdir / f"{cfg.name}-emit.cfg"
@@ -126,7 +162,7 @@ def run_part(fam: Family, tier: str, seed: int, rep: core.Report) -> None:
             r = tlc.run_tlc(fam.mc_module, p, workers=1, timeout=cfg.timeout,
                             tag=f"{fam.prop}-{cfg.name}-emit", keep_output=True)
             if r.violated:
-                raise tlc.TLCError(f"model {fam.mc_module}/{cfg.name} violates {r.violated}")
+                model_alarm(cfg, r, "exhaustive+emit")
             hs = tlc.payloads(r.lines, "@@H")
             fs = tlc.payloads(r.lines, "@@F")
             finals = {json.dumps(f["h"], sort_keys=True): f["fin"] for f in fs}
@@ -147,8 +183,7 @@ def run_part(fam: Family, tier: str, seed: int, rep: core.Report) -> None:
                             simulate=f"num={cfg.simulate}", depth=cfg.sim_depth,
                             seed=seed * 7919 + 17, tag=f"{fam.prop}-{cfg.name}-sim", keep_output=True)
             if r.violated:
-                raise tlc.TLCError(f"simulation of {fam.mc_module}/{cfg.name} violates {r.violated}\n"
-                                   + r.output[-3000:])
+                model_alarm(cfg, r, "simulate")
             fs = tlc.payloads(r.lines, "@@F")
             finals = {json.dumps(f["h"], sort_keys=True): f["fin"] for f in fs}
             for h in replay.leaves([f["h"] for f in fs]):
